@@ -41,13 +41,18 @@ __CPROVER_assigns()
 __CPROVER_ensures(__CPROVER_return_value == NULL || (what_find_size <= buf_size &&
     VF_IN_OR_NULL(__CPROVER_return_value, buf, offset, buf_size - what_find_size + 1)))
 ;
+#ifndef VF_MEMCASE_MAX
+#define VF_MEMCASE_MAX (((size_t)1) << 62)
+#endif
 static inline size_t mem_to_lower(void *dst, const void *src, const size_t size)
+__CPROVER_requires(size <= VF_MEMCASE_MAX)
 __CPROVER_requires(dst == NULL || size == 0 || __CPROVER_is_fresh(dst, size))
 __CPROVER_requires(src == NULL || size == 0 || __CPROVER_is_fresh(src, size))
 __CPROVER_assigns(dst != NULL && size != 0: __CPROVER_object_upto(dst, size))
 __CPROVER_ensures(__CPROVER_return_value == 0 || __CPROVER_return_value == size)
 ;
 static inline size_t mem_to_upper(void *dst, const void *src, const size_t size)
+__CPROVER_requires(size <= VF_MEMCASE_MAX)
 __CPROVER_requires(dst == NULL || size == 0 || __CPROVER_is_fresh(dst, size))
 __CPROVER_requires(src == NULL || size == 0 || __CPROVER_is_fresh(src, size))
 __CPROVER_assigns(dst != NULL && size != 0: __CPROVER_object_upto(dst, size))
@@ -71,5 +76,32 @@ __CPROVER_ensures(buf1_size != buf2_size ==> __CPROVER_return_value != 0)	\
 ;
 VF_CMPN_CONTRACT(mem_cmpn)
 VF_CMPN_CONTRACT(mem_cmpin)
+#endif
+#endif
+
+#ifndef VF_REPLAY
+#ifndef VF_MFS_BUF_MAX
+#define VF_MFS_BUF_MAX (((size_t)1) << 62)
+#define VF_MFS_WHAT_MAX (((size_t)1) << 62)
+#endif
+static inline int mem_find_stream(const uint8_t *buf, const size_t buf_size,
+    const uint8_t *what, const size_t what_size, size_t *state, size_t *off_end)
+__CPROVER_requires(buf_size <= VF_MFS_BUF_MAX && what_size <= VF_MFS_WHAT_MAX)
+__CPROVER_requires(buf == NULL || __CPROVER_is_fresh(buf, buf_size))
+__CPROVER_requires(what == NULL || __CPROVER_is_fresh(what, what_size))
+__CPROVER_requires(state == NULL || __CPROVER_is_fresh(state, sizeof(size_t)))
+__CPROVER_requires(off_end == NULL || __CPROVER_is_fresh(off_end, sizeof(size_t)))
+__CPROVER_assigns(state != NULL: *state; off_end != NULL: *off_end)
+__CPROVER_ensures(__CPROVER_return_value == 0 || __CPROVER_return_value == ENOENT ||
+    __CPROVER_return_value == EINVAL)
+__CPROVER_ensures((__CPROVER_return_value == 0) ==> (*state == 0 &&
+    (off_end == NULL || (*off_end >= 1 && *off_end <= buf_size))))
+__CPROVER_ensures((__CPROVER_return_value == ENOENT) ==> *state < what_size)
+;
+
+#ifndef VF_MRA_SRC_MAX
+#define VF_MRA_SRC_MAX (((size_t)1) << 62)
+#define VF_MRA_DST_MAX (((size_t)1) << 62)
+#define VF_MRA_PAT_MAX (((size_t)1) << 62)
 #endif
 #endif
